@@ -160,3 +160,24 @@ pub mod ref_value_ref {
         deps.m() + x
     }
 }
+
+// entrait's own naming convention applied to a function called `send` / `sync`: the generated trait is NAMED like
+// the marker trait the future bound refers to
+pub mod mailer {
+    use entrait::*;
+    #[entrait(pub Send)]
+    pub async fn send(deps: &impl core::any::Any, n: usize) -> usize {
+        n
+    }
+}
+pub mod syncer {
+    use entrait::*;
+    #[entrait(pub Sync)]
+    pub async fn sync<D>(deps: &D, n: usize) -> usize {
+        n
+    }
+    #[entrait(pub Future, ?Send)]
+    pub async fn future<D>(deps: &D, n: usize) -> usize {
+        n
+    }
+}
